@@ -5,6 +5,7 @@ import (
 	"fmt"
 	"math/rand"
 	"path"
+	"slices"
 	"sort"
 	"strings"
 	"text/template"
@@ -64,6 +65,7 @@ type GenOpts struct {
 	NoTests    bool
 	NLibs      int // 0 = random 2..4
 	PlainNames bool
+	Extra      []string // features added to the random selection (e.g. cgo, which is never picked at random)
 }
 
 // Prog is a generated module ready to be written to disk.
@@ -306,6 +308,11 @@ func generate(r *rand.Rand, opt GenOpts) *Prog {
 				continue
 			}
 			chosen = append(chosen, f)
+		}
+		for _, f := range opt.Extra {
+			if !slices.Contains(chosen, f) {
+				chosen = append(chosen, f)
+			}
 		}
 		sort.Strings(chosen)
 	}
